@@ -87,16 +87,22 @@ def timeFirst (a : NDArr α) : Except Err (NDArr α) :=
     (gather a.data (T * pre.prod) fun k => (k % pre.prod) * T + k / pre.prod).map
       fun d => ⟨T :: pre, d⟩
 
-/-- `a[:, :, ks]` on a 3-D array with an increasing list of positions (the boolean-mask
-selection of `FrequencyResponseData.eval`). -/
+/-- flat source position of the flat entry `k` of `a[:, :, ks]` (`N`: length of the last axis of
+`a`; an out-of-range source, `len`, if `ks` is empty). -/
+def selIdx (ks : List Nat) (N len : Nat) (k : Nat) : Nat :=
+  match ks[k % ks.length]? with
+  | some j => (k / ks.length) * N + j
+  | Option.none => len
+
+/-- `a[:, :, ks]` on a 3-D array with a list of positions (integer-array indexing of the last
+axis: the result has one slice per element of `ks`, in the order of `ks`, repeats included —
+the selection of `FrequencyResponseData.eval`). -/
 def selectLast (a : NDArr α) (ks : List Nat) : Except Err (NDArr α) :=
   match a.shape with
   | [p, m, N] =>
     if ks.all (· < N) then
-      (gather a.data (p * m * ks.length) fun k =>
-        match ks[k % ks.length]? with
-        | some j => (k / ks.length) * N + j
-        | Option.none => a.data.length).map fun d => ⟨[p, m, ks.length], d⟩
+      (gather a.data (p * m * ks.length) (selIdx ks N a.data.length)).map
+        fun d => ⟨[p, m, ks.length], d⟩
     else .error .indexRange
   | _ => .error .indexRange
 
